@@ -480,7 +480,9 @@ func (w *World) rulesNomenclature(out *[]Obligation) {
 func (p *Pkg) depsOf(e ast.Node, locals map[types.Object]map[string]bool) (map[string]bool, bool) {
 	deps := map[string]bool{}
 	ok := true
-	for _, r := range p.readersIn(e) {
+	// byte reads in the expression and in every package function it calls
+	// (accessors such as c.msi())
+	for _, r := range p.readersTransitive(e) {
 		for _, m := range r.Metrics {
 			deps[m] = true
 		}
